@@ -7,7 +7,8 @@ Driver glue for C57.
   `C57 publive <init> <behs> <ops>`  the same with the live-list iteration of the unrepaired code
       init  observer ids joined by `,` (`-` = none): constructor arguments
       behs  one script per observer id 0,1,… joined by `;` (`_` = no observers); a script is the acts
-            of that observer's 1st, 2nd, … call joined by `,` (`-` = empty; past the end: plain return);
+            of that observer's 1st, 2nd, … call joined by `,` (`-` = empty; past the end: plain return), optionally
+            followed by `~<act>`: what the observer does at every call past the end instead (e.g. `-~x:` always raises);
             act = `x|o` `:` commands joined by `.`   (`x` = raises after the commands); command =
             `r<id>` removeObserver, `a<id>` addObserver, `p` publish a fresh event through the publisher (re-entrant)
       ops   joined by `,` (`-` = none): `e` emit the next event, `a<id>` addObserver, `r<id>` removeObserver
@@ -19,7 +20,9 @@ Driver glue for C57.
       steps joined by `;`: `s:<ns>:<lvl>` set, `c` clear, `q:<ns>` logLevelForNamespace, `e:<lvl|~>:<ns|~>` event
       ns = decimal code points joined by `_`, `-` = empty
       → per step `ok` / `!InvalidLogLevelError` / level / `<predicate answer>/<pos|neg|!TypeError>`
-  `C57 hist <size|N> <steps> [<feed>]`  steps: string over `e` (observe next event) and `r` (replayTo); `-` = none
+  `C57 hist <size|N> <steps> [<feed>]`  steps: string over `e` (observe next event), `r` (replayTo), `d` / `c` (observe
+      the newest event once more: the same object / an equal copy — one more event either way; `e` if there is none yet),
+      `s` (replayTo(self): the history observer is handed its own buffer); `-` = none
       feed (optional; `-` = none): numbers joined by `,` — in every replay the target observer, on receiving its i-th
       replayed event (0-based), logs feed[i] new events to the history observer itself (re-entrant)
       → per `r` the replayed event numbers `[..]`, or `!raised ValueError`
@@ -50,10 +53,20 @@ def decAct (s : String) : Option Publish.Act :=
     pure { cmds, raises }
   | _ => none
 
-def decScript (s : String) : Option (List Publish.Act) :=
+def decActs (s : String) : Option (List Publish.Act) :=
   if s = "-" then some [] else (s.splitOn ",").mapM decAct
 
-def decBehs (s : String) : Option (List (List Publish.Act)) :=
+/-- a script: the acts of the 1st, 2nd, … call and the act of every later call -/
+def decScript (s : String) : Option (List Publish.Act × Publish.Act) :=
+  match s.splitOn "~" with
+  | [a] => (decActs a).map fun l => (l, {})
+  | [a, d] => do
+    let l ← decActs a
+    let d ← decAct d
+    pure (l, d)
+  | _ => none
+
+def decBehs (s : String) : Option (List (List Publish.Act × Publish.Act)) :=
   if s = "_" then some [] else (s.splitOn ";").mapM decScript
 
 def decOp (s : String) : Option (Option Nat → Publish.Op) :=
@@ -63,9 +76,9 @@ def decOp (s : String) : Option (Option Nat → Publish.Op) :=
     | 'r' :: r => (String.ofList r).toNat?.map fun o _ => .remove o
     | _ => none
 
-def behOf (scripts : List (List Publish.Act)) : Publish.Beh := fun o n _ =>
+def behOf (scripts : List (List Publish.Act × Publish.Act)) : Publish.Beh := fun o n _ =>
   match scripts[o]? with
-  | some sc => sc.getD n {}
+  | some sc => sc.1.getD n sc.2
   | none => {}
 
 partial def showEv : Publish.Ev → String
@@ -75,10 +88,12 @@ partial def showEv : Publish.Ev → String
 
 def showDel (d : Publish.Obs × Publish.Ev) : String := toString d.1 ++ ">" ++ showEv d.2
 
-def pubRun (live : Bool) (init : List Nat) (scripts : List (List Publish.Act)) (ops : List String) : Option String := do
+def pubRun (live : Bool) (init : List Nat) (scripts : List (List Publish.Act × Publish.Act)) (ops : List String) : Option String := do
+  -- an act repeated for ever must not publish (the re-entrancy would not be well-founded)
+  if scripts.any (fun sc => sc.2.cmds.contains .publish) then none
   let beh := behOf scripts
   -- every re-entrant publish consumes one `p` command of a script: this bound cannot be reached
-  let fuel := (scripts.map fun sc => (sc.map fun a => (a.cmds.filter (· == .publish)).length).sum).sum + 1
+  let fuel := (scripts.map fun sc => (sc.1.map fun a => (a.cmds.filter (· == .publish)).length).sum).sum + 1
   let mut s : Publish.St := { main := init, trace := [] }
   let mut out : Array String := #[]
   let mut k := 0
@@ -139,9 +154,13 @@ def histRun (size : Option Int) (steps : List Char) (feed : List Nat) : Option S
     let mut k := 0
     let mut out : Array String := #[]
     for c in steps do
-      if c = 'e' then
+      if c = 'e' || ((c = 'd' || c = 'c') && k = 0) then
         h := h.observe k
         k := k + 1
+      else if c = 'd' || c = 'c' then
+        h := h.observe (k - 1)
+      else if c = 's' then
+        h := h.replayToSelf
       else if c = 'r' then
         -- number the events the target will feed: feed[i] fresh events at its i-th call, for the calls that happen
         let counts := (List.range h.buf.length).map fun i => feed.getD i 0
